@@ -180,7 +180,45 @@ func propC09(r *Run) {
 			w.extraOK = func(p string) bool { return strings.HasPrefix(p, w.base()+".old") }
 			r.Count("probe:store-directory-replaced-under-instance")
 		}
-		err, _ := w.runOp(op)
+		ackedByFirst := false
+		if !sc.otherDev && (op.Kind == "update" || op.Kind == "add" || op.Kind == "set-admin") && r.Choose("retry-after-failed-attempt", 6) == 0 {
+			// the acknowledged call is the operator's second attempt: the first one met an I/O error
+			// somewhere and reported failure (whatever it left behind). What the retry acknowledges
+			// must be durable all the same - it cannot lean on work the failed attempt did not finish.
+			k := f.NOps + r.Choose("first-attempt-fault-at", max(sc.nops, 1))
+			done := false
+			f.Plan = func(seq int, kind, real string) *simfs.Fault {
+				if done || seq < k {
+					return nil
+				}
+				if e := errnosFor[kind]; len(e) > 0 {
+					done = true
+					return &simfs.Fault{Errno: e[0]}
+				}
+				return nil
+			}
+			ferr, _ := w.runOp(op)
+			f.Plan = nil
+			r.Logf("first attempt of %s with an injected fault -> %v", op, ferr)
+			if ferr != nil {
+				r.Count("probe:retry-after-reported-failure")
+				if op.Kind == "add" {
+					// a failed add may (known finding aside) not leave the user behind; if it did, the retry is an update
+					if _, _, on := w.userFile(op.User); on {
+						op.Kind = "update"
+					}
+				}
+			} else {
+				// the fault did not make the call fail (or was not reached): then this was the acknowledged call
+				r.Count("probe:first-attempt-succeeded")
+				ackedByFirst = true
+			}
+			w.logPos = len(f.Log)
+		}
+		var err error
+		if !ackedByFirst {
+			err, _ = w.runOp(op)
+		}
 		if err != nil && sc.otherDev {
 			r.Count("probe:refused-across-devices")
 			return // nothing was acknowledged: nothing has to be durable (C08/C15 judge the refusal)
